@@ -440,34 +440,81 @@ pub fn size_lists(lo_k: u32, hi_k: u32) -> SizeLists {
     SizeLists { must, pow }
 }
 
-/// The plan of a scale run: `(dimension, size)` pairs, sizes that come from a source constant
-/// first (every dimension sees each of them), then the sizes around powers of two.  In the quick
-/// tier a dimension `d` takes all power-of-two variants up to `2^full_k[d]` and `above` random
-/// variants per larger power (that is where the cost is); thorough takes them all.
-pub fn scale_plan(rng: &mut Rng, dims: &[(u32, u32, u32)], above: usize, thorough: bool) -> Vec<(usize, usize)> {
+/// One size-like dimension of a scale family.
+#[derive(Clone, Copy)]
+pub struct ScaleDim {
+    /// sizes `2^lo_k ..= 2^hi_k + 64` (quick tier), `..= 2^hi_k_thorough + 64` (thorough)
+    pub lo_k: u32,
+    pub hi_k: u32,
+    pub hi_k_thorough: u32,
+    /// quick tier: all variants around `2^k` for `k <= full_k`, `above` random ones per larger power
+    pub full_k: u32,
+    pub above: usize,
+    /// quick tier: the variants left out become `big=1` cases (implementation-side oracles only)
+    pub rest_big: bool,
+    /// sizes above this are beyond what the Lean model can run in the budget: always `big=1`
+    pub model_max: usize,
+    pub model_max_thorough: usize,
+}
+
+impl ScaleDim {
+    pub const fn new(lo_k: u32, hi_k: u32, hi_k_thorough: u32, full_k: u32, above: usize) -> ScaleDim {
+        ScaleDim { lo_k, hi_k, hi_k_thorough, full_k, above, rest_big: false, model_max: usize::MAX, model_max_thorough: usize::MAX }
+    }
+    pub const fn rest_big(mut self) -> ScaleDim {
+        self.rest_big = true;
+        self
+    }
+    pub const fn model_max(mut self, quick: usize, thorough: usize) -> ScaleDim {
+        self.model_max = quick;
+        self.model_max_thorough = thorough;
+        self
+    }
+}
+
+/// The plan of a scale run: `(dimension, size, big)` triples, sizes that come from a source
+/// constant first (every dimension sees each of them), then the sizes around powers of two.  In
+/// the quick tier a dimension takes all power-of-two variants up to `2^full_k` and `above` random
+/// variants per larger power (that is where the cost is), the other variants as `big=1` cases
+/// if `rest_big`; thorough takes them all.
+pub fn scale_plan(rng: &mut Rng, dims: &[ScaleDim], thorough: bool) -> Vec<(usize, usize, bool)> {
     let mut plan = vec![];
-    let lists: Vec<SizeLists> = dims.iter().map(|&(lo, hi, _)| size_lists(lo, hi)).collect();
+    let hi = |d: &ScaleDim| if thorough { d.hi_k_thorough } else { d.hi_k };
+    let cap = |d: &ScaleDim| if thorough { d.model_max_thorough } else { d.model_max };
+    let lists: Vec<SizeLists> = dims.iter().map(|d| size_lists(d.lo_k, hi(d))).collect();
     let mut musts: Vec<usize> = lists.iter().flat_map(|l| l.must.iter().copied()).collect();
     musts.sort();
     musts.dedup();
     for s in musts {
         for (d, l) in lists.iter().enumerate() {
             if l.must.contains(&s) {
-                plan.push((d, s));
+                plan.push((d, s, s > cap(&dims[d])));
             }
         }
     }
-    let (klo, khi) = (dims.iter().map(|d| d.0).min().unwrap(), dims.iter().map(|d| d.1).max().unwrap());
+    let (klo, khi) = (dims.iter().map(|d| d.lo_k).min().unwrap(), dims.iter().map(|d| hi(d)).max().unwrap());
     for k in klo..=khi {
         for (d, l) in lists.iter().enumerate() {
             let Some((_, v)) = l.pow.iter().find(|(kk, _)| *kk == k) else { continue };
-            if thorough || k <= dims[d].2 {
-                plan.extend(v.iter().map(|&s| (d, s)));
+            let dim = &dims[d];
+            if thorough || k <= dim.full_k {
+                plan.extend(v.iter().map(|&s| (d, s, s > cap(dim))));
             } else {
                 let mut v = v.clone();
-                for _ in 0..above.min(v.len()) {
+                let mut rest = vec![];
+                if k == hi(dim) {
+                    // the largest power: stay above it ("beyond 2^k + a bit")
+                    rest = v.iter().copied().filter(|&s| s <= 1usize << k).collect();
+                    v.retain(|&s| s > 1usize << k);
+                }
+                for _ in 0..dim.above.min(v.len()) {
                     let i = rng.below(v.len() as u64) as usize;
-                    plan.push((d, v.remove(i)));
+                    let s = v.remove(i);
+                    plan.push((d, s, s > cap(dim)));
+                }
+                if dim.rest_big {
+                    // the variants the model is too slow for: implementation-side oracles only
+                    plan.extend(v.iter().chain(rest.iter()).map(|&s| (d, s, true)));
                 }
             }
         }
@@ -476,7 +523,7 @@ pub fn scale_plan(rng: &mut Rng, dims: &[(u32, u32, u32)], above: usize, thoroug
 }
 
 static SCALE_IDX: std::sync::atomic::AtomicUsize = std::sync::atomic::AtomicUsize::new(0);
-static SCALE_PLAN: std::sync::OnceLock<Vec<(usize, usize)>> = std::sync::OnceLock::new();
+static SCALE_PLAN: std::sync::OnceLock<Vec<(usize, usize, bool)>> = std::sync::OnceLock::new();
 
 /// the dimensions of the scan scale family
 const D_RUN: usize = 0; // length of the digit run
@@ -611,14 +658,24 @@ fn pick_chunk(rng: &mut Rng, bl: usize, sizes: &[usize]) -> usize {
 
 pub fn gen_scale(rng: &mut Rng, thorough: bool) -> String {
     let idx = SCALE_IDX.fetch_add(1, std::sync::atomic::Ordering::Relaxed);
-    let hi = if thorough { 22 } else { 21 };
     let plan = SCALE_PLAN.get_or_init(|| {
-        // (lo_k, hi_k, all variants up to 2^k in the quick tier)
-        let dims = [(10, 21, 16), (10, hi, 17), (10, hi, 17), (10, hi, 17), (10, hi, 17), (10, hi, 17), (10, hi, 17), (10, hi, 17)];
-        scale_plan(&mut rng.fork(), &dims, 1, thorough)
+        // the digit run is what the model is slow on (1..4 us per digit): one variant per power
+        // above 2^15 through the model, the others implementation-only
+        let o = ScaleDim::new(10, 21, 22, 18, 1);
+        let dims = [ScaleDim::new(10, 20, 21, 15, 1).rest_big(), o, o, o, o, o, o, o];
+        scale_plan(&mut rng.fork(), &dims, thorough)
     });
-    let (dim, size) = plan[idx % plan.len()];
+    if idx == 0 && std::env::var("VH_SCALE_INFO").is_ok() {
+        eprintln!("scan scale plan: {} cases per pass", plan.len());
+    }
+    let (dim, size, big) = plan[idx % plan.len()];
     let sizes = scale_sizes(10, 21);
+    let line = gen_scale_case(rng, dim, size, &sizes);
+    if big { format!("{} big=1", line) } else { line }
+}
+
+fn gen_scale_case(rng: &mut Rng, dim: usize, size: usize, sizes: &[usize]) -> String {
+    let sizes = sizes.to_vec();
     let int_case = |rng: &mut Rng, func: &str, ty: &str, pre: String, off: usize, run: String, runlen: usize, term: String, bl: usize, c: Option<usize>| {
         let _ = runlen;
         let d = join_fields(&[pre, run, term]);
@@ -630,7 +687,8 @@ pub fn gen_scale(rng: &mut Rng, thorough: bool) -> String {
     };
     match dim {
         D_RUN => {
-            let func = *rng.pick(&["digits_multi", "digits_multi", "sdigits_multi", "sdigits_multi", "digits", "sdigits"]);
+            // long runs: the optimised variants more often (they have the continuation helpers)
+            let func = if size >= 1 << 16 && rng.chance(1, 2) { *rng.pick(&["digits_multi", "sdigits_multi"]) } else { *rng.pick(&["digits_multi", "digits_multi", "sdigits_multi", "sdigits_multi", "digits", "sdigits"]) };
             let ty = *rng.pick(INT_TYPES);
             let signed_scan = func.starts_with('s');
             let neg = if signed_scan { rng.chance(1, 2) } else { rng.chance(1, 25) };
